@@ -29,6 +29,25 @@ Check C15_fresh_open_value : forall i h p,
 Check C15_fresh_open_refuted :
   exists h, Forall (valid_ievent 0) h /\ fresh_open h /\ ~ tracks h.
 
+Check C15_price_latest_wins : forall h, Forall mevent_wf h ->
+  exists l last,
+    is_latest ((0%Z, l1_default) :: l1_deliveries h) (l1_time l, l) /\
+    match last with
+    | None => trade_deliveries h = []%list
+    | Some d => is_latest (trade_deliveries h) d
+    end /\
+    md_price (md_run h) = ref_price l last.
+Check C15_market_data_of_history : forall h, is_md (irun h) = md_run (market_events h).
+Check eq_refl : @is_latest = fun V ds d => In d ds /\ forall d', In d' ds -> (fst d' <= fst d)%Z.
+Check eq_refl : ref_price = fun l last =>
+  match l1_vw_mid l with Some p => Some p | None => option_map snd last end.
+Check eq_refl : l1_vw_mid = fun l =>
+  match l1_ask l, l1_bid l with
+  | Some a, Some b => Some ((fst b * snd a + fst a * snd b) / (snd b + snd a))
+  | _, _ => None
+  end.
+Check eq_refl : mevent_wf = fun e => match e with ML1 t l => l1_time l = t | _ => True end.
+
 (* the definitions the statements rest on *)
 Check eq_refl : tracks = fun h =>
   match is_pos (irun h), g_ref (grun h) with
